@@ -625,10 +625,94 @@ def kw_query_read(via: int, read_gpa: bool, which: int, c: int) -> bool:
     return _sub(via, read_gpa, (3, 6, 2), which, c)
 
 
+# ---------------------------------------------------------------------------------------------- collections
+def _gsel(c):
+    # 0 -> NULL, 1 -> the observed group, 2 -> the other group (explicit comparisons: one solver decision each)
+    return None if c == 0 else (LOADED_G if c == 1 else NEW_G)
+
+
+def _coll(obs, two, c1, c2, new, c3):
+    """G[7].items is observed (obs 0 not at all; 1 iterated; 2 len(); 3 `E[1] in`, after a full load; 4 is_empty(): a partial look), then
+    every row of E is fetched again: item 1 (and item 2, if `two`) now refer to group _gsel(c1) (_gsel(c2)), and if `new` a row never
+    seen before refers to _gsel(c3).  Then the collection is read again."""
+    from pony.orm import db_session
+    from pony.orm.core import UnrepeatableReadError
+    e = K.ENVS['sqlite']
+    K._reset(e)
+    E, G, con = e.E, e.G, e.con
+    gcol = e.col['g']
+    def row(i, g): return {'id': i, 'a': 5, 'f': 1.5, 'x': 6, 'v': 3, 'n': None, gcol: g, 'g': g}
+    rows1 = [row(1, LOADED_G)] + ([row(2, LOADED_G)] if two else [])
+    rows2 = [row(1, _gsel(c1))] + ([row(2, _gsel(c2))] if two else []) + ([row(3, _gsel(c3))] if new else [])
+    st = {'phase': 1}
+
+    def responder(sql, args):
+        table, cols = _columns(sql)
+        if table == G._table_: return [(args[0],)], [('id',)], -1
+        if table == E._table_:
+            rows = rows1 if st['phase'] == 1 else rows2
+            if cols == ['*']: cols = ['id'] + list(ATTRS)
+            if ('WHERE "%s" = ' % gcol) in sql:                      # the collection is loaded: the members of the group asked for
+                want = args[0] if not isinstance(args, dict) else list(args.values())[0]
+                rows = [r for r in rows if r['g'] == want]
+            elif 'WHERE' in sql:                                     # a lookup by primary key
+                want = args[0] if not isinstance(args, dict) else list(args.values())[0]
+                rows = [r for r in rows if r['id'] == want]
+            return [tuple(r[c] for c in cols) for r in rows], [(c, None, None, None, None, None, None) for c in cols], -1
+        return None
+    con.reset(responder)
+    exc = None
+    first = second = None
+    done = False
+    try:
+        with db_session:
+            g7 = G[LOADED_G]
+            G[NEW_G]
+            if obs == 1: first = sorted(o.id for o in g7.items)
+            elif obs == 2: first = len(g7.items)
+            elif obs == 3:
+                g7.items.load()
+                first = E[1] in g7.items
+            elif obs == 4: first = g7.items.is_empty()
+            st['phase'] = 2
+            E.select_by_sql('SELECT * FROM "%s"' % E._table_, {}, {})
+            if obs == 2: second = len(g7.items)
+            elif obs == 3: second = E[1] in g7.items
+            elif obs == 4: second = g7.items.is_empty()
+            else: second = sorted(o.id for o in g7.items)
+            done = True
+    except Exception as ex:
+        exc = ex
+    LAST.update(exc=exc, log=list(con.log), before=first, after=second)
+    why = []
+    if exc is not None and not isinstance(exc, UnrepeatableReadError): why.append('T0: %s' % _exc(exc))
+    members2 = sorted(r['id'] for r in rows2 if r['g'] == LOADED_G)
+    members1 = sorted(r['id'] for r in rows1)
+    if members2 == members1 and exc is not None: why.append('T3: unchanged membership raised %s' % _exc(exc))
+    if exc is None:
+        if not done: why.append('session did not finish')
+        elif obs in (1, 2, 3):
+            if second != first: why.append('T1: the fully loaded collection showed %r, then %r, no error' % (first, second))
+        elif obs == 0:
+            if second != members2: why.append('T2: unobserved collection shows %r, database has %r' % (second, members2))
+    LAST['why'] = why
+    return ok(not why)
+
+
+def coll_reload(obs: int, two: bool, c1: int, c2: int, new: bool, c3: int) -> bool:
+    """
+    pre: 0 <= obs <= 4 and 0 <= c1 <= 2 and 0 <= c2 <= 2 and 0 <= c3 <= 2
+    pre: two or c2 == 1
+    pre: new or c3 == 0
+    post: _
+    """
+    return _coll(obs, two, c1, c2, new, c3)
+
+
 RELOAD = ['reload_a', 'reload_a_locked', 'reload_f', 'reload_f_noflush', 'reload_x', 'reload_v', 'reload_n', 'reload_n_noflush', 'reload_g', 'reload_g_noflush', 'reload_g_pending',
           'reload_two', 'reload_two_noflush']
 LINKS = ['o2o_relink_tracked', 'o2o_relink_untracked', 'o2o_none_then_linked']
-HARNESSES = RELOAD + LINKS + ['sub_query_read', 'kw_query_read']
+HARNESSES = RELOAD + LINKS + ['sub_query_read', 'kw_query_read', 'coll_reload']
 
 
 def explain(fn, **kw):
